@@ -312,3 +312,56 @@ package matcher
 //@       ((k in pc.Opts) <==> (old(k in pc.Opts) || iterdone(k)))
 //@   loop 2 invariant sub: forall k *container.Container :: iterdone(k) ==> old(k in o.Opts)
 //@   loop 2 invariant frame: domOf(o.Args) == old(domOf(o.Args)) && valOf(o.Args) == old(valOf(o.Args)) && domOf(o.Opts) == old(domOf(o.Opts)) && valOf(o.Opts) == old(valOf(o.Opts))
+
+// --- the Matcher interface (C01, C02, C09): every matcher is a function of (matcher, args, options-ended flag) ---------
+// The m* functions are *static*: they denote values in the heap as it was on entry (matchers, containers and name
+// tables are never written while parsing).  A matcher always runs on a fresh, empty context (fsm.apply), so its
+// bindings are given as the whole content of the two maps afterwards.
+//@ pure static func tableWF(idx map[string]*container.Container) bool = idx != nil && (forall n string :: (n in idx) ==> idx[n] != nil)
+//@ pure static func matcherWF(m Matcher) bool =
+//@     isType(m, "*arg") ? asType(m, "*arg") != nil :
+//@     isType(m, "*opt") ? (asType(m, "*opt") != nil && asType(m, "*opt").theOne != nil && tableWF(asType(m, "*opt").index)) :
+//@     isType(m, "*options") ? (asType(m, "*options") != nil && tableWF(asType(m, "*options").index) &&
+//@         (forall i int :: 0 <= i && i < len(asType(m, "*options").options) ==> asType(m, "*options").options[i] != nil)) :
+//@     (isType(m, "optsEnd") || isType(m, "shortcut"))
+//@ pure static func optK(o *opt, args []string) int = scanPos(args, 0, domOf(o.index), valOf(o.index), fieldHeap(o.theOne.Value), o.theOne)
+//@ pure static func grpOK(om *options, args []string) bool =
+//@     tryOK(om.options, args, domOf(om.index), valOf(om.index), fieldHeap(om.options[0].Value), fieldHeap(om.options[0].ValueSetFromEnv), noKeys("*container.Container"))
+//@ pure static func mOK(m Matcher, args []string, rej bool) bool =
+//@     isType(m, "*arg") ? (len(args) > 0 && (rej || !hasPrefix(args[0], "-") || args[0] == "-")) :
+//@     isType(m, "*opt") ? (((len(args) == 0 || rej) || optK(asType(m, "*opt"), args) < 0) ? asType(m, "*opt").theOne.ValueSetFromEnv : true) :
+//@     isType(m, "*options") ? (!rej && grpOK(asType(m, "*options"), args)) : true
+//@ pure static func mRem(m Matcher, args []string, rej bool) []string =
+//@     isType(m, "*arg") ? args[1:] :
+//@     isType(m, "*opt") ? (((len(args) == 0 || rej) || optK(asType(m, "*opt"), args) < 0) ? args :
+//@         tokRem(args, optK(asType(m, "*opt"), args), domOf(asType(m, "*opt").index), valOf(asType(m, "*opt").index), fieldHeap(asType(m, "*opt").theOne.Value), asType(m, "*opt").theOne)) :
+//@     isType(m, "*options") ? grpRem(asType(m, "*options").options, args, domOf(asType(m, "*options").index), valOf(asType(m, "*options").index),
+//@         fieldHeap(asType(m, "*options").options[0].Value), fieldHeap(asType(m, "*options").options[0].ValueSetFromEnv), noKeys("*container.Container")) : args
+//@ pure func mRej(m Matcher, rej bool) bool = rej || isType(m, "optsEnd")
+//@ pure static func mArgsD(m Matcher) set[*container.Container] = isType(m, "*arg") ? store(noKeys("*container.Container"), asType(m, "*arg").arg, true) : noKeys("*container.Container")
+//@ pure static func mArgsV(m Matcher, args []string) array[*container.Container][]string =
+//@     isType(m, "*arg") ? store(constArray("*container.Container", nilOf("[]string")), asType(m, "*arg").arg, seq(args[0])) : constArray("*container.Container", nilOf("[]string"))
+//@ pure static func mOptsD(m Matcher, args []string, rej bool) set[*container.Container] =
+//@     isType(m, "*opt") ? (((len(args) == 0 || rej) || optK(asType(m, "*opt"), args) < 0) ? noKeys("*container.Container") : store(noKeys("*container.Container"), asType(m, "*opt").theOne, true)) :
+//@     isType(m, "*options") ? grpOD(asType(m, "*options").options, args, domOf(asType(m, "*options").index), valOf(asType(m, "*options").index),
+//@         fieldHeap(asType(m, "*options").options[0].Value), fieldHeap(asType(m, "*options").options[0].ValueSetFromEnv), noKeys("*container.Container"), noKeys("*container.Container")) : noKeys("*container.Container")
+//@ pure static func mOptsV(m Matcher, args []string, rej bool) array[*container.Container][]string =
+//@     isType(m, "*opt") ? (((len(args) == 0 || rej) || optK(asType(m, "*opt"), args) < 0) ? constArray("*container.Container", nilOf("[]string")) :
+//@         store(constArray("*container.Container", nilOf("[]string")), asType(m, "*opt").theOne,
+//@               seq(tokVal(args, optK(asType(m, "*opt"), args), domOf(asType(m, "*opt").index), valOf(asType(m, "*opt").index), fieldHeap(asType(m, "*opt").theOne.Value), asType(m, "*opt").theOne)))) :
+//@     isType(m, "*options") ? grpOV(asType(m, "*options").options, args, domOf(asType(m, "*options").index), valOf(asType(m, "*options").index),
+//@         fieldHeap(asType(m, "*options").options[0].Value), fieldHeap(asType(m, "*options").options[0].ValueSetFromEnv), noKeys("*container.Container"), noKeys("*container.Container"), constArray("*container.Container", nilOf("[]string"))) :
+//@     constArray("*container.Container", nilOf("[]string"))
+
+//@ func Matcher.Match(args, c)
+//@   requires wf: matcherWF(this)
+//@   requires ctx: c != nil && c.Args != nil && c.Opts != nil && c.ExcludedOpts != nil && c.Args != c.Opts
+//@   requires fresh-ctx: domOf(c.Args) == noKeys("*container.Container") && domOf(c.Opts) == noKeys("*container.Container") && domOf(c.ExcludedOpts) == noKeys("*container.Container") &&
+//@       valOf(c.Args) == constArray("*container.Container", nilOf("[]string")) && valOf(c.Opts) == constArray("*container.Container", nilOf("[]string"))
+//@   ensures ok: result0 == mOK(this, args, old(c.RejectOptions))
+//@   ensures rem: result0 ==> result1 == mRem(this, args, old(c.RejectOptions))
+//@   ensures rej: result0 ==> c.RejectOptions == mRej(this, old(c.RejectOptions))
+//@   ensures args-bound: result0 ==> domOf(c.Args) == mArgsD(this) && valOf(c.Args) == mArgsV(this, args)
+//@   ensures opts-bound: result0 ==> domOf(c.Opts) == mOptsD(this, args, old(c.RejectOptions)) && valOf(c.Opts) == mOptsV(this, args, old(c.RejectOptions))
+//@   ensures frame: c.Args == old(c.Args) && c.Opts == old(c.Opts) && c.ExcludedOpts == old(c.ExcludedOpts) &&
+//@       frameMap(c.Args, c.Opts) && frameMap(c.ExcludedOpts) && frame(c.RejectOptions)
